@@ -44,7 +44,7 @@ CHILD_STEP_NR = {NR["dup3"]: "dup2", NR["dup2"]: "dup2", NR["fcntl"]: "dupfd", N
                  NR["setgid"]: "setgid", NR["setpgid"]: "setpgid", NR["execve"]: "execve"}
 PARENT_STEP_NR = {NR["pipe2"]: "pipe2", NR["pipe"]: "pipe2", NR["openat"]: "open-devnull", NR["open"]: "open-devnull",
                   NR["fork"]: "fork", NR["clone"]: "fork", NR["vfork"]: "fork", NR["clone3"]: "fork",
-                  NR["read"]: "sync-pipe-read"}
+                  NR["read"]: "sync-pipe-read", NR["fcntl"]: "sync-pipe-move"}
 STREAM = ("stdin", "stdout", "stderr")
 
 # fault positions: step -> (scope, syscall nr, errnos tried first in quick, more errnos for thorough)
@@ -158,7 +158,8 @@ class Shard:
 def base_case(cid):
     return dict(id=cid, kind="ok", bin=None, helper=True, code=0, args=[], env_mode="default", envs=[], cwd=None,
                 uid=None, gid=None, pg=None, io=[None, None, None], pre=0, prefail=None, inj=[], payload=b"",
-                wait2=False, trywait=False, fault=None, note="", shared=None)
+                wait2=False, trywait=False, fault=None, note="", shared=None, holdstdin=False, closed=None,
+                dump_id=None, head=None, followers=None)
 
 
 def gen_config(r, sh, helper, cid, *, light=False):
@@ -197,6 +198,8 @@ def gen_config(r, sh, helper, cid, *, light=False):
     c["pre"] = r.choice([0, 0, 0, 1, 2, 3])
     c["wait2"] = r.random() < 0.2
     c["trywait"] = r.random() < 0.2
+    if c["io"][0] == "p" and not c["trywait"] and r.random() < 0.4:
+        c["holdstdin"] = True       # wait() is called while the Child still owns the stdin pipe
     return c
 
 
@@ -247,28 +250,78 @@ def materialize(c, sh):
             c["io"][s] = ("b", p)
 
 
-def case_line(c):
-    t = ["id=%d" % c["id"], "bin=" + hx(c["bin"])]
-    t += ["arg=" + hx(a) for a in c["args"]]
-    if c["env_mode"] == "provided":
-        t += ["env=" + hx(e) for e in c["envs"]]
-    if c["cwd"] is not None:
-        t.append("cwd=" + hx(c["cwd"]))
-    for k in ("uid", "gid", "pg"):
-        if c[k] is not None:
-            t.append("%s=%d" % (k, c[k]))
-    for s, k in enumerate(("in", "out", "err")):
-        m = c["io"][s]
-        if m is None:
-            continue
-        if isinstance(m, tuple):
-            t.append("%s=%s%s" % (k, m[0], hx(m[1]) if m[0] in "rwb" else str(m[1])))
+SEED = [0]
+
+
+def io_tok(k, m):
+    if isinstance(m, tuple):
+        return "%s=%s%s" % (k, m[0], hx(m[1]) if m[0] in "rwb" else str(m[1]))
+    return "%s=%s" % (k, m)
+
+
+def chunked(r, one, many, items):
+    """Split `items` into consecutive builder calls: single `one=` calls and `many=` batches (also empty ones)."""
+    out = []
+    i = 0
+    while i < len(items):
+        if r.random() < 0.5:
+            out.append("%s=%s" % (one, hx(items[i])))
+            i += 1
         else:
-            t.append("%s=%s" % (k, m))
-    if c["pre"]:
-        t.append("pre=%d" % c["pre"])
-    if c["prefail"]:
-        t.append("prefail=%d:%d" % c["prefail"])
+            k = r.randint(0 if r.random() < 0.15 else 1, min(6, len(items) - i))
+            out.append("%s=%s" % (many, ",".join(hx(x) if x else "-" for x in items[i:i + k])))
+            i += k
+    if r.random() < 0.25:
+        out.insert(r.randint(0, len(out)), "%s=" % many)
+    return out
+
+
+def interleave(r, *seqs):
+    """Random merge of sequences that keeps the order inside each of them."""
+    seqs = [list(q) for q in seqs if q]
+    out = []
+    while seqs:
+        q = r.choice(seqs)
+        out.append(q.pop(0))
+        if not q:
+            seqs.remove(q)
+    return out
+
+
+def build_tokens(c, r, args, envs, settings=True):
+    """The builder calls of one Command in a seeded order: arg/args and env/envs chunks in configuration order,
+    the other settings anywhere in between."""
+    a = chunked(r, "arg", "args", args)
+    e = chunked(r, "env", "envs", envs) if (envs or r.random() < 0.1) else []
+    io = []
+    other = []
+    if settings:
+        for s, k in enumerate(("in", "out", "err")):
+            if c["io"][s] is not None:
+                io.append(io_tok(k, c["io"][s]))
+        if c["cwd"] is not None:
+            other.append(["cwd=" + hx(c["cwd"])])
+        for k in ("uid", "gid", "pg"):
+            if c[k] is not None:
+                other.append(["%s=%d" % (k, c[k])])
+        pre = []
+        if c["prefail"]:
+            idx, code = c["prefail"]
+            if idx:
+                pre.append("pre=%d" % idx)
+            pre.append("prefail=%d" % code)
+            if c["pre"] - idx > 0:
+                pre.append("pre=%d" % (c["pre"] - idx))
+        elif c["pre"]:
+            k = r.randint(0, c["pre"])
+            pre = [x for x in ("pre=%d" % k if k else None, "pre=%d" % (c["pre"] - k) if c["pre"] - k else None) if x]
+        other.append(pre)
+    t = interleave(r, a, e, io, *other)
+    return t
+
+
+def tail_tokens(c):
+    t = []
     for j in c["inj"]:
         t.append("inj=%d,%d,%d,%d,%d" % tuple(j))
     if c["payload"]:
@@ -277,18 +330,43 @@ def case_line(c):
         t.append("wait2=1")
     if c["trywait"]:
         t.append("trywait=1")
+    if c.get("holdstdin"):
+        t.append("holdstdin=1")
+    for n in c.get("closed") or []:
+        t.append("closefd=%d" % n)      # last: files handed over as RawFd are opened before
+    return t
+
+
+def case_line(c):
+    """One line = one Command value: builder calls in a seeded interleaving, one or more spawns."""
+    if c.get("head") is not None:
+        return case_line(c["head"])
+    r = vlib.rng(SEED[0], "build", c["id"])
+    t = ["id=%d" % c["id"], "bin=" + hx(c["bin"])]
+    t += build_tokens(c, r, c["args"], c["envs"] if c["env_mode"] == "provided" else [])
+    t += tail_tokens(c)
+    fol = c.get("followers") or []
+    if fol:
+        t.append("spawn=%d" % c["id"])
+        for f in fol:
+            t += build_tokens(f, r, f["extra_args"], f["extra_envs"], settings=False)
+            if f.get("new_cwd") is not None:
+                t.append("cwd=" + hx(f["new_cwd"]))
+            t.append("spawn=%d" % f["id"])
     return " ".join(t)
 
 
 def ser_case(c, sh):
-    """JSON form of a case with shard-relative paths, for replay files."""
+    """JSON form of a case (of the whole chain when the Command is re-used) with shard-relative paths, for replay files."""
+    if c.get("head") is not None:
+        return ser_case(c["head"], sh)
     def path(b):
         if b is None:
             return None
         if b.startswith(sh.bdir + b"/"):
             return {"rel": hx(b[len(sh.bdir) + 1:])}
         return {"abs": hx(b)}
-    o = {k: c[k] for k in ("id", "kind", "helper", "code", "env_mode", "uid", "gid", "pg", "pre", "wait2", "trywait", "note", "shared")}
+    o = {k: c[k] for k in ("id", "kind", "helper", "code", "env_mode", "uid", "gid", "pg", "pre", "wait2", "trywait", "note", "shared", "holdstdin", "closed", "dump_id")}
     o["bin"], o["cwd"] = path(c["bin"]), path(c["cwd"])
     o["args"] = [hx(a) for a in c["args"]]
     o["envs"] = [hx(a) for a in c["envs"]]
@@ -297,6 +375,8 @@ def ser_case(c, sh):
     o["prefail"] = list(c["prefail"]) if c["prefail"] else None
     o["inj"] = [list(j) for j in c["inj"]]
     o["fault"] = list(c["fault"]) if c["fault"] else None
+    o["followers"] = [dict(id=f["id"], extra_args=[hx(a) for a in f["extra_args"]], extra_envs=[hx(a) for a in f["extra_envs"]],
+                           new_cwd=path(f.get("new_cwd"))) for f in (c.get("followers") or [])]
     return o
 
 
@@ -306,7 +386,7 @@ def deser_case(o, sh, helper):
             return None
         return os.path.join(sh.bdir, bytes.fromhex(v["rel"])) if "rel" in v else bytes.fromhex(v["abs"])
     c = base_case(o["id"])
-    for k in ("kind", "helper", "code", "env_mode", "uid", "gid", "pg", "pre", "wait2", "trywait", "note", "shared"):
+    for k in ("kind", "helper", "code", "env_mode", "uid", "gid", "pg", "pre", "wait2", "trywait", "note", "shared", "holdstdin", "closed", "dump_id"):
         c[k] = o[k]
     c["bin"], c["cwd"] = path(o["bin"]), path(o["cwd"])
     c["args"] = [bytes.fromhex(a) for a in o["args"]]
@@ -320,7 +400,27 @@ def deser_case(o, sh, helper):
         b = c["bin"] if c["bin"].startswith(b"/") else os.path.join(sh.bdir, c["bin"])
         if os.path.basename(b).startswith(b"h.") and not os.path.lexists(b):
             os.link(helper, b)
+    prev = c
+    c["followers"] = []
+    for fo in o.get("followers") or []:
+        f = follow(prev, fo["id"], [bytes.fromhex(a) for a in fo["extra_args"]], [bytes.fromhex(a) for a in fo["extra_envs"]],
+                   path(fo["new_cwd"]), c)
+        c["followers"].append(f)
+        prev = f
     return c
+
+
+def follow(prev, cid, extra_args, extra_envs, new_cwd, head):
+    """The configuration of the next spawn of the same Command value."""
+    f = dict(prev)
+    f.update(id=cid, args=prev["args"] + extra_args, envs=(prev["envs"] if prev["env_mode"] == "provided" else []) + extra_envs,
+             extra_args=extra_args, extra_envs=extra_envs, new_cwd=new_cwd, head=head, followers=None, dump_id=cid,
+             io=list(prev["io"]), inj=[], fault=None)
+    if f["envs"]:
+        f["env_mode"] = "provided"
+    if new_cwd is not None:
+        f["cwd"] = new_cwd
+    return f
 
 
 def n_fd_streams(c):
@@ -456,6 +556,76 @@ def gen_injections(r, sh, helper, next_id, thorough):
     return out
 
 
+def gen_chains(r, sh, helper, next_id, n):
+    """One Command value spawned 2-3 times, with and without further builder calls in between."""
+    out = []
+    for _ in range(n):
+        c = gen_config(r, sh, helper, next_id(), light=r.random() < 0.5)
+        if c["bin"].startswith(b"./"):
+            c["bin"] = os.path.join(sh.bdir, c["bin"][2:])
+        c["shared"] = None
+        c["io"] = [r.choice([None, "n", "p"]), r.choice(["n", "p"]), r.choice(["n", "p"])]   # nothing handed over, no caller sinks
+        c["holdstdin"] = c["io"][0] == "p" and not c["trywait"] and r.random() < 0.4
+        c["dump_id"] = c["id"]
+        c["note"] = "command re-used"
+        c["followers"] = []
+        prev = c
+        for k in range(r.choice([1, 2])):
+            ea = [rand_token(r) for _ in range(r.choice([0, 0, 1, 2, 5]))]
+            ee = rand_env(r, r.choice([0, 0, 1, 3]))
+            ncwd = r.choice([None, None, None, os.path.join(sh.bdir, b"cwd-a"), b"/"])
+            f = follow(prev, next_id(), ea, ee, ncwd, c)
+            f["note"] = "command re-used, spawn %d (+%d args, +%d env)" % (k + 2, len(ea), len(ee))
+            c["followers"].append(f)
+            prev = f
+        out.append(c)
+        out += c["followers"]
+    return out
+
+
+def gen_hold_stdin(r, sh, helper, next_id, reps):
+    """MakePipe stdin, the program runs until EOF, and the caller leaves closing the pipe to wait()."""
+    out = []
+    for _ in range(reps):
+        for so, se, plen in (("p", "p", 0), ("n", None, 300), (None, "p", 1), ("w", "n", 1500)):
+            c = gen_config(r, sh, helper, next_id(), light=True)
+            c["shared"] = None
+            c["io"] = ["p", so, se]
+            c["payload"] = bytes(r.randrange(256) for _ in range(plen))
+            c["trywait"], c["holdstdin"] = False, True
+            c["note"] = "wait() owns closing the stdin pipe"
+            out.append(c)
+    return out
+
+
+def gen_closed_std(r, sh, helper, next_id, reps):
+    """The caller itself runs with some of its descriptors 0-2 closed (daemon style): descriptors created inside
+    spawn then land in 0..=2."""
+    out = []
+    shapes = [
+        ([1, 2], [None, None, "w"], True), ([1, 2], [None, None, "w"], False),
+        ([1, 2], [None, "w", "w"], True), ([1, 2], [None, "w", "w"], False),
+        ([2], [None, None, "w"], True), ([2], [None, "p", "w"], False),
+        ([0], ["r", None, None], True), ([0], ["r", "p", "p"], False),
+        ([0, 1, 2], ["n", "n", "n"], False), ([0, 1, 2], ["p", "p", "p"], False), ([0, 1, 2], ["p", "p", "p"], True),
+        ([0, 1, 2], [None, "w", None], False), ([0, 1, 2], ["r", "w", "w"], True), ([1], [None, "p", None], True),
+    ]
+    for _ in range(reps):
+        for closed, io, bad_prog in shapes:
+            c = gen_config(r, sh, helper, next_id(), light=True)
+            c["shared"] = None
+            c["uid"] = c["gid"] = None
+            c["io"] = list(io)
+            c["closed"] = list(closed)
+            c["holdstdin"] = False
+            c["note"] = "caller has %s closed%s" % (closed, ", program does not exist" if bad_prog else "")
+            if bad_prog:
+                c["kind"], c["helper"] = "real", False
+                c["bin"] = os.path.join(sh.bdir, b"does-not-exist")
+            out.append(c)
+    return out
+
+
 def gen_shared_stdio(r, sh, helper, next_id, reps):
     out = []
     for name in sorted(SHARED_STDIO):
@@ -478,27 +648,161 @@ def probe_env_for(r):
     return env
 
 
+def _syscall_of(pid):
+    try:
+        with open("/proc/%d/syscall" % pid) as f:
+            return f.read().split()
+    except OSError:
+        return None
+
+
+def _pipe_holders(ino):
+    """Every (pid, fd, access mode) on this system that has pipe `ino` open."""
+    want = "pipe:[%d]" % ino
+    res = []
+    for pid in os.listdir("/proc"):
+        if not pid.isdigit():
+            continue
+        try:
+            fds = os.listdir("/proc/%s/fd" % pid)
+        except OSError:
+            continue
+        for fd in fds:
+            try:
+                if os.readlink("/proc/%s/fd/%s" % (pid, fd)) != want:
+                    continue
+                acc = None
+                with open("/proc/%s/fdinfo/%s" % (pid, fd)) as f:
+                    for line in f:
+                        if line.startswith("flags:"):
+                            acc = int(line.split()[1], 8) & 3
+                res.append((int(pid), int(fd), acc))
+            except (OSError, ValueError):
+                continue
+    return res
+
+
+def stdin_deadlock_certificate(P, Q):
+    """Logical evidence that caller P can never get Q's status: P is parked in wait4(Q), Q is parked in read(0), Q's
+    descriptor 0 is the read end of a pipe, and every write end of that pipe on the whole system belongs to P."""
+    sp, sq = _syscall_of(P), _syscall_of(Q)
+    cert = dict(caller=P, child=Q, caller_syscall=" ".join(sp or [])[:80], child_syscall=" ".join(sq or [])[:80], complete=False)
+    try:
+        if not (sp and sp[0] == "61" and int(sp[1], 16) & 0xffffffff == Q):
+            cert["why"] = "caller not parked in wait4(child)"
+            return cert
+        if not (sq and sq[0] == "0" and int(sq[1], 16) == 0):
+            cert["why"] = "child not parked in read(0)"
+            return cert
+        link = os.readlink("/proc/%d/fd/0" % Q)
+        cert["child_fd0"] = link
+        if not link.startswith("pipe:["):
+            cert["why"] = "child's descriptor 0 is not a pipe"
+            return cert
+        ino = int(link[6:-1])
+        holders = _pipe_holders(ino)
+        cert["pipe_holders"] = holders
+        writers = [h for h in holders if h[2] in (1, 2)]
+        readers = [h for h in holders if h[2] == 0]
+        if (Q, 0, 0) not in readers:
+            cert["why"] = "child's descriptor 0 is not the read end"
+        elif not writers:
+            cert["why"] = "no write end left (EOF is on its way)"
+        elif any(h[0] != P for h in writers):
+            cert["why"] = "a write end is held outside the caller"
+        else:
+            # still the same picture after looking: both remain parked
+            sp2, sq2 = _syscall_of(P), _syscall_of(Q)
+            if sp2 and sq2 and sp2[:2] == sp[:2] and sq2[:2] == sq[:2]:
+                cert["complete"] = True
+            else:
+                cert["why"] = "state changed while looking"
+    except (OSError, ValueError, IndexError) as ex:
+        cert["why"] = "lookup failed: %s" % ex
+    return cert
+
+
 def run_shard(sh, sysmon, timeout_s):
     casefile = os.path.join(sh.dir, "cases")
     with open(casefile, "w") as f:
         for c in sh.cases:
-            f.write(case_line(c) + "\n")
+            if c.get("head") is None:
+                f.write(case_line(c) + "\n")
     spec = os.path.join(sh.dir, "spec")
     exe = sh.flavour["exe"]
     syslog.write_spec(spec, exe, [os.fsencode(exe), os.fsencode(casefile)], sh.probe_env)
     log = os.path.join(sh.dir, "log")
-    cmd = syslog.sysmon_cmd(log, [exe, casefile], timeout_s=timeout_s, idle_ms=0, scope_markers=False,
+    cmd = syslog.sysmon_cmd(log, [exe, casefile], timeout_s=timeout_s, idle_ms=300, scope_markers=False,
                             spec=spec, sysmon=sysmon)
     t0 = time.time()
-    with open(os.path.join(sh.dir, "stdin.empty"), "rb") as fin:
-        try:
-            p = subprocess.run(cmd, cwd=sh.dir, stdin=fin, stdout=subprocess.PIPE, stderr=subprocess.PIPE,
-                               timeout=timeout_s + 30)
-            sh.rc, sh.out, sh.err, sh.timed_out = p.returncode, p.stdout, p.stderr, False
-        except subprocess.TimeoutExpired as ex:
-            sh.rc, sh.out, sh.err, sh.timed_out = None, ex.stdout or b"", ex.stderr or b"", True
-    sh.wall = time.time() - t0
+    sh.certs = {}
     sh.log = log
+    outp, errp = os.path.join(sh.dir, "probe.stdout"), os.path.join(sh.dir, "probe.stderr")
+    with open(os.path.join(sh.dir, "stdin.empty"), "rb") as fin, open(outp, "wb") as fo, open(errp, "wb") as fe:
+        p = subprocess.Popen(cmd, cwd=sh.dir, stdin=fin, stdout=fo, stderr=fe)
+        pos = 0
+        tail = b""
+        seen = {}        # (P, Q) -> number of idle samples showing the pair parked
+        sh.timed_out = False
+        while True:
+            try:
+                p.wait(timeout=0.2)
+                break
+            except subprocess.TimeoutExpired:
+                pass
+            if time.time() - t0 > timeout_s + 30:
+                p.kill()
+                p.wait()
+                sh.timed_out = True
+                break
+            # idle samples ("T" lines) are flushed by sysmon as soon as they are taken
+            try:
+                with open(log, "rb") as lf:
+                    lf.seek(pos)
+                    data = lf.read()
+            except OSError:
+                continue
+            if not data:
+                continue
+            pos += len(data)
+            lines = (tail + data).split(b"\n")
+            tail = lines.pop()
+            burst = {}
+            for ln in lines:
+                if ln.startswith(b"T "):
+                    q = ln.decode("ascii", "replace").split(" ")
+                    if len(q) >= 5:
+                        try:
+                            burst[int(q[2])] = q[4:]
+                        except ValueError:
+                            pass
+            for P, sc in burst.items():
+                try:
+                    if sc[0] != "61":
+                        continue
+                    Q = int(sc[1], 16) & 0xffffffff
+                except (ValueError, IndexError):
+                    continue
+                sq = burst.get(Q)
+                if not sq or sq[0] != "0" or Q in sh.certs:
+                    continue
+                seen[(P, Q)] = seen.get((P, Q), 0) + 1
+                cert = stdin_deadlock_certificate(P, Q)
+                if cert["complete"] or seen[(P, Q)] >= 2:
+                    # contain the hang so that the rest of the shard runs: the parked child is killed
+                    sh.certs[Q] = cert
+                    try:
+                        os.kill(Q, 9)
+                    except OSError:
+                        pass
+    sh.rc = p.returncode
+    if sh.timed_out:
+        sh.rc = None
+    with open(outp, "rb") as f:
+        sh.out = f.read()
+    with open(errp, "rb") as f:
+        sh.err = f.read()
+    sh.wall = time.time() - t0
     return sh
 
 
@@ -842,8 +1146,19 @@ class Judge:
         if first is not None:
             step = first[2]
             stepname = step + ("-" + first[3] if first[3] else "")
-            self.viol("C13/%s/ok-despite-failure" % ("exec-error" if step == "execve" else step), c, co,
-                      "%s failed with errno %d but spawn returned Ok" % (stepname, first[4]))
+            sig = "C13/%s/ok-despite-failure" % ("exec-error" if step == "execve" else step)
+            extra = ""
+            for pid, ch in kids:
+                for e in ch["ev"]:
+                    if e.k == "S" and e.nr == NR["write"] and e.seq > first[0] and e.args[2] == 8 and syslog.s64(e.args[0]) <= 2:
+                        # the 8-byte error record went into descriptor 0-2: the child's end of the sync pipe was inside the
+                        # standard range and got replaced by the stdio redirection
+                        sig += "/sync-pipe-in-stdio-range"
+                        extra = "; the child wrote its error record to descriptor %d, which the stdio set-up had redirected" % e.args[0]
+                        break
+                if extra:
+                    break
+            self.viol(sig, c, co, "%s failed with errno %d but spawn returned Ok%s" % (stepname, first[4], extra))
             return "judged"
         if len(kids) != 1:
             self.viol("C13/spawn/ok-without-child", c, co, "spawn returned Ok but the caller forked %d processes" % len(kids))
@@ -865,6 +1180,19 @@ class Judge:
                 pipe_data[e.tag - 1000] = e.data
         bad = []   # (signature suffix, text)
 
+        cert = getattr(self.sh, "certs", {}).get(Q)
+        if cert is not None:
+            if cert["complete"]:
+                self.viol("C13/wait/deadlock-stdin-pipe-still-open", c, co,
+                          "wait() can never report the child's status: caller %d is parked in wait4(%d), child %d is parked in read(0), "
+                          "its descriptor 0 is the read end of %s and every write end of that pipe is held by the caller itself "
+                          "(the Child's stdin pipe is still open while wait blocks); the child was killed to contain the hang"
+                          % (cert["caller"], Q, Q, cert.get("child_fd0")), certificate=cert)
+                ck.note_distinct("%s/defect/wait-deadlock-stdin" % self.fl)
+                return "judged"
+            ck.note_inconclusive("%s case %d: caller and child stayed parked (%s) but the certificate is incomplete: %s"
+                                 % (self.fl, cid, cert.get("child_syscall"), cert.get("why")))
+            return "incomplete"
         if not c["helper"]:
             return "judged"
         dump_path = self.dump_path(c)
@@ -933,6 +1261,13 @@ class Judge:
             if f is None:
                 continue
             mode = "inherit" if m in (None, "i") else "null" if m == "n" else "pipe" if m == "p" else "rawfd"
+            if mode == "inherit" and s in (c.get("closed") or []):
+                # the caller itself has this descriptor closed, so has the child at exec; the helper's runtime (Rust std)
+                # re-opens /dev/null on closed standard descriptors before main: that is what the dump can show
+                if not stat.S_ISCHR(f["mode"]) or f["rdev"] != self.devnull:
+                    bad.append(("child/stdio-mismatch/%s-closed" % STREAM[s], "%s is closed in the caller and inherited, the child has "
+                                "something else there (mode %o rdev %x ino %d)" % (STREAM[s], f["mode"], f["rdev"], f["ino"])))
+                continue
             ident = (f["dev"], f["ino"])
             acc = f["fl"] & 3
             why = None
@@ -982,7 +1317,7 @@ class Judge:
             if isinstance(m, tuple) and m[0] == "x":
                 return ("caller", m[1])
             if m in (None, "i"):
-                return ("caller", s)
+                return ("null",) if s in (c.get("closed") or []) else ("caller", s)
             return ("null",)
         file_expect = {}     # path -> expected content
         caller_expect = {1: [], 2: []}
@@ -991,7 +1326,9 @@ class Judge:
             if isinstance(m, tuple) and m[0] == "b":
                 file_expect[m[1]] = c["payload"]      # read to its end by the helper before it writes
         for s, tag in ((1, b"O"), (2, b"E")):
-            msg = tag + b"%d:" % cid + (hx(seen).encode() if seen else b"-") + b"\n"
+            # the helper knows its case only from the name of its executable: the first spawn's id when a Command is re-used
+            hid = c["head"]["id"] if c.get("head") is not None else cid
+            msg = tag + b"%d:" % hid + (hx(seen).encode() if seen else b"-") + b"\n"
             w = d.get("out" if s == 1 else "err")
             if not w or w[0] != w[2]:
                 bad.append(("child/%s-unwritable" % STREAM[s], "helper's write to %s: %r" % (STREAM[s], w)))
@@ -1078,7 +1415,7 @@ class Judge:
         b = c["bin"]
         if not b.startswith(b"/"):
             b = os.path.join(self.sh.bdir, b)
-        return os.path.realpath(b) + b".dump"
+        return os.path.realpath(b) + b".dump" + (b".%d" % c["dump_id"] if c.get("dump_id") is not None else b"")
 
     def sample(self, c, outcome):
         line = case_line(c)
@@ -1127,6 +1464,7 @@ def _run(ck, quick, sysmon, helper_src, flavours, root, replay):
     helper_b = os.fsencode(helper)
     devnull = os.stat("/dev/null").st_rdev
     counter = [0]
+    SEED[0] = ck.seed
 
     def next_id():
         counter[0] += 1
@@ -1144,8 +1482,11 @@ def _run(ck, quick, sysmon, helper_src, flavours, root, replay):
         fl = [f for f in flavours if f["name"] == det.get("flavour")] or flavours[:1]
         sh = Shard(root, fl[0], 0)
         sh.probe_env = [bytes.fromhex(e) for e in det.get("probe_env", [])]
-        sh.cases = [deser_case(det["replay_case"], sh, helper_b)]
-        materialize(sh.cases[0], sh)
+        head = deser_case(det["replay_case"], sh, helper_b)
+        materialize(head, sh)
+        for f in head["followers"]:
+            f["io"] = list(head["io"])
+        sh.cases = [head] + head["followers"]
         shards.append(sh)
     else:
         per_ok = 40 if quick else 160
@@ -1175,6 +1516,13 @@ def _run(ck, quick, sysmon, helper_src, flavours, root, replay):
             sh.probe_env = probe_env_for(r)
             sh.cases += gen_shared_stdio(r, sh, helper_b, next_id, 2 if quick else 6)
             shards.append(sh)
+            for gen, reps in ((gen_chains, 24 if quick else 200), (gen_hold_stdin, 2 if quick else 10),
+                              (gen_closed_std, 1 if quick else 4)):
+                sh = Shard(root, fl, idx)
+                idx += 1
+                sh.probe_env = probe_env_for(r)
+                sh.cases += gen(r, sh, helper_b, next_id, reps)
+                shards.append(sh)
             first = Shard(root, fl, idx)
             idx += 1
             first.probe_env = probe_env_for(r)
